@@ -150,6 +150,7 @@ def main(argv=None) -> int:
     undecided: List[str] = []
     named: Dict[str, Dict[str, Any]] = {}
     violations = []
+    unknown_obs: List[Any] = []
     known_hits: Dict[str, List[Any]] = {}
     solver_ms = 0.0
     n_paths = 0
@@ -165,7 +166,7 @@ def main(argv=None) -> int:
         assumptions_used.update(r.assumptions)
         unit_short = r.unit.split(":")[1]
         # vacuity guards
-        if not r.errors and not r.undecided:
+        if not r.errors and not r.undecided and all(o.status == "unsat" for o in r.obligations):
             if not r.covers.get(f"{unit_short}.entry"):
                 errors.append(f"vacuity: precondition/invariant of {r.unit} unsatisfiable")
             if not any(v for k, v in r.covers.items() if ".exit." in k):
@@ -176,8 +177,10 @@ def main(argv=None) -> int:
             if ob.props and prop not in ob.props:
                 continue
             n_instances += 1
-            d = named.setdefault(ob.name, {"clause": ob.clause, "instances": 0, "status": "unsat", "ms": 0.0, "unit": r.unit, "where": ob.where, "props": list(ob.props)})
+            d = named.setdefault(ob.name, {"clause": ob.clause, "instances": 0, "status": "unsat", "ms": 0.0, "unit": r.unit, "where": ob.where, "props": list(ob.props), "cvc5": 0})
             d["instances"] += 1
+            if getattr(ob, "backend", "z3") == "cvc5":
+                d["cvc5"] += 1
             d["ms"] += ob.ms
             if ob.status == "unsat":
                 continue
@@ -197,7 +200,25 @@ def main(argv=None) -> int:
             else:
                 if d["status"] != "sat":
                     d["status"] = "unknown"
-                undecided.append(f"{ob.name}: solver returned unknown at {ob.where} [{' '.join(ob.path)}]")
+                unknown_obs.append((r.unit, ob))
+
+    # an obligation the solver could not decide is undecided -- unless the real function, run on
+    # generated inputs, violates a postcondition of that unit: then it is a violation with a
+    # native failing input
+    tried: Dict[str, Any] = {}
+    for unit, ob in unknown_obs:
+        if unit not in tried:
+            try:
+                from pyvc.falsify import falsify_typed
+
+                tried[unit] = falsify_typed(unit, prop)
+            except Exception as e:
+                tried[unit] = {"clause_violated": False, "skipped": repr(e)}
+        if tried[unit].get("clause_violated"):
+            named[ob.name]["status"] = "sat"
+            violations.append((unit, ob))
+        else:
+            undecided.append(f"{ob.name}: solver returned unknown at {ob.where} [{' '.join(ob.path)}]")
 
     # baseline obligation count (vacuity: contracts silently generating fewer obligations)
     base_path = os.path.join(VERIF, "contracts", "baseline.json")
@@ -205,7 +226,7 @@ def main(argv=None) -> int:
     n_named = len(named)
     if n_named == 0:
         errors.append("vacuity: zero obligations generated")
-    if prop in baseline and n_named < baseline[prop] and not undecided and not errors:
+    if prop in baseline and n_named < baseline[prop] and not undecided and not errors and not violations:
         errors.append(f"vacuity: {n_named} named obligations generated, baseline is {baseline[prop]}")
 
     # bounded stand-ins and native scenarios
@@ -234,10 +255,24 @@ def main(argv=None) -> int:
 
     rc = 0
     viol_lines = []
+    by_name: Dict[str, List[Any]] = {}
     for unit, ob in violations:
-        path, reproduced = write_replay(prop, unit, ob, VERIF)
-        suffix = "" if reproduced else " no-failing-input-found"
-        viol_lines.append(f"VIOLATION property={prop} replay={path}{suffix}")
+        by_name.setdefault(ob["obligation"] if isinstance(ob, dict) else ob.name, []).append((unit, ob))
+    for name, insts in by_name.items():
+        # one line per failed obligation: the first instance whose counter-model replays natively,
+        # else the first instance (at most 4 replays are attempted per obligation)
+        best = None
+        for unit, ob in insts[:4]:
+            path, reproduced = write_replay(prop, unit, ob, VERIF)
+            if reproduced:
+                best = (path, True)
+                break
+            if best is None:
+                best = (path, False)
+        if best is not None and not best[1] and len(insts) > 1:
+            write_replay(prop, insts[0][0], insts[0][1], VERIF)  # leave the first instance in the file
+        suffix = "" if best[1] else " no-failing-input-found"
+        viol_lines.append(f"VIOLATION property={prop} replay={best[0]}{suffix}")
     scen = run_scenarios([x for x in findings["findings"] if x["id"] in known_hits])
     for fid, obs in known_hits.items():
         f = [x for x in findings["findings"] if x["id"] == fid][0]
@@ -265,7 +300,7 @@ def main(argv=None) -> int:
     discharged = sum(1 for v in counted.values() if v["status"] == "unsat")
     samples = []
     for k, v in list(named.items())[:12]:
-        samples.append({"obligation": k, "clause": v["clause"], "unit": v["unit"], "instances(paths)": v["instances"], "status": v["status"], "backend": "z3", "ms": round(v["ms"], 2)})
+        samples.append({"obligation": k, "clause": v["clause"], "unit": v["unit"], "instances(paths)": v["instances"], "status": v["status"], "backend": "z3+cvc5" if v.get("cvc5") else "z3", "ms": round(v["ms"], 2)})
     ev = {
         "property_id": prop,
         "tier": tier,
@@ -282,7 +317,7 @@ def main(argv=None) -> int:
             ],
             "obligation_instances": n_instances,
             "paths_explored": n_paths,
-            "by_backend": {"z3": discharged, "cvc5": 0},
+            "by_backend": {"z3": sum(1 for v in counted.values() if v["status"] == "unsat" and not v.get("cvc5")), "cvc5": sum(1 for v in counted.values() if v["status"] == "unsat" and v.get("cvc5"))},
             "solver_time_s": round(solver_ms / 1000, 3),
             "functions_under_contract": functions,
             "samples": samples,
